@@ -108,6 +108,7 @@ def run(tier):
                                         'Quiet /\\ wf = "RUNNING" /\\ KF_ItemsRestart /\\ Len(ax["a"]) > 2', 2, 0, ('pause', 'resume')),
                                        ('items_task_restarted_by_resume_completes_early', 'items2_c1_ok',
                                         'tk["a"].state = "SUCCESS" /\\ \\E k \\in 1..Len(ax["a"]) : ax["a"][k].s = "RUNNING"', 2, 0, ('pause', 'resume')),
+                                       ('index_started_twice_through_retry', 'items3_c2_retry', 'hist.idxTwice /\\ Quiet', 0, 0, ()),
                                        ('concurrency_limit_reached', 'items3_c2_ok',
                                         'Cardinality({k \\in 1..Len(ax["a"]) : ax["a"][k].s = "RUNNING"}) = 2 /\\ Len(ax["a"]) = 3', 0, 0, ())]))
 
